@@ -47,6 +47,8 @@ def specStep (sp : S) : Ev → S × Obs
   | .joinFail _ h => (sp, { ret := [join sp h], live := sp.live })
   | .tlsFail t k g => (sp, { ret := if g then [sp.cell t k] else [], live := sp.live })
   | .currentFail _ => let r := createFailed sp; (r.1, { live := r.1.live, freed := [r.2] })
+  | .startUnstored t => let r := unstored sp t; (r, { live := r.live })
+  | .retUnstored _ h => let r := drop sp h; (r.1, { live := r.1.live, freed := r.2 })
 
 /-- live handles of a machine state -/
 def liveOf (s : State) : List Nat := (List.range s.nH).filter fun h => !(s.hdl h).freed
